@@ -470,7 +470,7 @@ func runC08(c *vf.Ctx) {
 		maxN = 9
 		c.SetBudget(8 * 60 * 1e9)
 	}
-	c.Rule = "generated progressive files: all chunkings (compositions) of N samples x {mdat before/after moov} x {32-bit, 64-bit mdat header} x {1,2 tracks, interleaved chunks} x lead-in 0/1 x a free box in 64-bit header form before moov and mdat x trailing box {none, empty mdat (8/16-byte header), free}, sample sizes 1..3; fragmented files with 1-2 fragments; for each file BOTH decode modes, then every (start,size>=1) range inside every mdat payload through ReadData and CopyData, every sample interval 1<=a<=b<=N through CopySampleData with work buffers {0,1,2,3,5,8,payload,payload+1}, Info/Size/positions of both trees, lazy mdat Encode/EncodeSW; DecodeBoxLazyMdat on every top-level box with three start-position bookkeeping values against DecodeBox; call histories on ONE shared reader (every sequence of 2 calls over the alphabet {ReadData, CopyData of every range of every mdat, CopySampleData of every interval with work buffer nil/2, caller seeks to 0/end} for payloads <= 9 (thorough: 13) bytes and for the fragmented files, every sequence of 3 for payloads <= 3 (5) bytes, each call compared with the file bytes); plus the segmenter example in default vs -lazy mode on every file of the C11 generator at every segment duration (identical output files). A case = one file (distinct by construction); 'ranges' counts the individual range/interval comparisons."
+	c.Rule = "generated progressive files: all chunkings (compositions) of N samples x {mdat before/after moov} x {32-bit, 64-bit mdat header} x {1,2 tracks, interleaved chunks} x lead-in 0/1 x a free box in 64-bit header form before moov and mdat x trailing box {none, empty mdat (8/16-byte header), free}, sample sizes 1..3; fragmented files with 1-2 fragments; for each file BOTH decode modes, then every (start,size>=1) range inside every mdat payload through ReadData and CopyData, every sample interval 1<=a<=b<=N through CopySampleData with work buffers {0,1,2,3,5,8,payload,payload+1}, Info/Size/positions of both trees, lazy mdat Encode/EncodeSW; DecodeBoxLazyMdat on every top-level box with three start-position bookkeeping values against DecodeBox; call histories on ONE shared reader (every sequence of 2 calls over the alphabet {ReadData, CopyData of every range of every mdat, CopySampleData of every interval with work buffer nil/2, caller seeks to 0/end} for payloads <= 9 (thorough: 13) bytes and for the fragmented files, every sequence of 3 for payloads <= 3 (5) bytes, each call compared with the file bytes); plus files with an mdat box of 2^32-16 .. 2^32-1 bytes (32-bit size field) and of 2^32-1 .. 2^40 bytes (64-bit size field), before and after moov, served by a virtual io.ReadSeeker that computes the payload from the position: box sequence, sizes adding up to the file length, mdat start / header size / payload offset / box size / payload size, the header the lazy mdat writes, ReadData and CopyData at the start and end of the payload and around absolute position 2^32, and a read budget (lazy mode must not read the payload); plus the segmenter example in default vs -lazy mode on every file of the C11 generator at every segment duration (identical output files). A case = one file (distinct by construction); 'ranges' counts the individual range/interval comparisons."
 	c.Bound = fmt.Sprintf("N <= %d samples per video track", maxN)
 	specs := c08Specs(maxN)
 	var frags []*c08FragSpec
@@ -573,6 +573,7 @@ func runC08(c *vf.Ctx) {
 		c.DistinctN.Add(n.Load())
 		c.Set("segmenter_lazy_vs_memory_runs", n.Load())
 	}
+	c08Huge(c)
 	c.Traces.Store(int64(total))
 	c.Sample(c08Case{Kind: "prog", Spec: specs[len(specs)/2]})
 	c.Sample(c08Case{Kind: "frag", Frag: frags[1]})
@@ -586,6 +587,16 @@ func replayC08(c *vf.Ctx, detail json.RawMessage) {
 	}
 	if err := json.Unmarshal(detail, &d); err != nil {
 		vf.Harness("bad detail: %v", err)
+	}
+	if d.Case.Kind == "huge" {
+		var h struct {
+			Case c08HugeCase `json:"case"`
+		}
+		if err := json.Unmarshal(detail, &h); err != nil {
+			vf.Harness("bad detail: %v", err)
+		}
+		c08HugeCheck(c, &h.Case)
+		return
 	}
 	if len(d.History) > 0 {
 		if d.Case.Kind == "prog" {
